@@ -870,11 +870,14 @@ func (e *encoderMsgpackBytes) kMapCanonical(ti *typeInfo, rv, rvv reflect.Value,
 
 		sideEncode(e.hh, &e.h.sideEncPool, func(se encoderI) {
 			se.ResetBytes(&mksv)
+
+			se.ciInherit(e.ci)
 			for i, k := range mks {
 				v := &mksbv[i]
 				l := len(mksv)
 				se.setContainerState(containerMapKey)
-				se.encodeR(baseRVRV(k))
+
+				se.encodeR(k)
 				se.atEndOfEncode()
 				se.writerEnd()
 				v.r = k
@@ -4967,11 +4970,14 @@ func (e *encoderMsgpackIO) kMapCanonical(ti *typeInfo, rv, rvv reflect.Value, ke
 
 		sideEncode(e.hh, &e.h.sideEncPool, func(se encoderI) {
 			se.ResetBytes(&mksv)
+
+			se.ciInherit(e.ci)
 			for i, k := range mks {
 				v := &mksbv[i]
 				l := len(mksv)
 				se.setContainerState(containerMapKey)
-				se.encodeR(baseRVRV(k))
+
+				se.encodeR(k)
 				se.atEndOfEncode()
 				se.writerEnd()
 				v.r = k
